@@ -130,6 +130,8 @@ def check(case: Dict[str, Any]) -> Dict[str, Any]:
         classes.append('case-variant-names')
     if '.' in names:
         classes.append('root-name')
+    if case.get('via_incoming') and any(r.get('age', 'zero') == 'zero' for r in secs['an']):
+        classes.append('answers-added-through-add_answer(incoming, record)')
     if len(packets) > 1:
         classes.append('multi-datagram')
     if pointers:
